@@ -8,5 +8,10 @@ pub fn validate(s: &str) -> Result<(), Error> {
         validate_id(s, b'$')?;
     }
 
+    // The localpart is opaque, but like for room IDs it cannot contain the NUL byte.
+    if s.as_bytes().contains(&b'\0') {
+        return Err(Error::InvalidCharacters);
+    }
+
     Ok(())
 }
